@@ -226,49 +226,74 @@ class Gen:
         return {n: self.field(t) for n, t in layout}
 
 
+TRACE_SYMS = ("BTC", "XTN", "LTC")      # XTN shares BTC's Tx class; LTC has Tx and Block classes of its own
+
+
 def record_traces(seed, count, big, layouts, real):
     """drive pycoin on random messages; log what it did (no expectation is computed here).
+    Messages that carry headers / blocks / transactions go to BTC, XTN and LTC in turn (all imported in this process).
     -> list of events; an event that cannot be logged carries "direct" = (key suffix, what)."""
     rnd = random.Random(seed)
     g = Gen(rnd, real, big)
-    M = D.N().message
     names = sorted(n for n in layouts if n != "alert_info")
     # an auxiliary packer for the structure inside alert.payload, from the SPEC's layout of it
     from pycoin.message.make_parser_and_packer import make_parser_and_packer
     ai_layout = layouts["alert_info"]
+    D.use("BTC")
     _, ai_pack = make_parser_and_packer(D.streamer(), {"alert_info": " ".join("%s:%s" % nt for nt in ai_layout)}, {})
     evs = []
     for k in range(count):
         name = names[k % len(names)] if k < 2 * len(names) else rnd.choice(names)
         lay = layouts[name]
-        ev = {"name": name, "layout": lay}
+        sym = TRACE_SYMS[(k // len(names) + k) % len(TRACE_SYMS)] if name in D.CARRIERS else "BTC"
+        D.use(sym)
+        M = D.N().message
+        ev = {"name": name, "layout": lay, "sym": sym}
         inner = None
         if name == "alert":
             inner = {n: g.field(t) for n, t in ai_layout}
-            payload = ai_pack("alert_info", **{n: D.api_field_from_plain(t, inner[n]) for n, t in ai_layout})
-            fields = {"payload": payload, "signature": _rand_bytes(rnd, rnd.choice([0, 71, 72]))}
+            r = D.guarded(("alert_info", "pack"), ai_pack, "alert_info", **{n: D.api_field_from_plain(t, inner[n]) for n, t in ai_layout})
+            if r[0] != "ok":
+                if r[0] == "exc":
+                    ev["fields"], ev["inner"], ev["direct"] = inner, None, ("alert-payload|pack|" + D.exc_what(r), r[2])
+                    evs.append(ev)
+                continue
+            fields = {"payload": r[1], "signature": _rand_bytes(rnd, rnd.choice([0, 71, 72]))}
         else:
             fields = g.message(name, lay)
         ev["fields"] = fields
         ev["inner"] = inner
         try:
-            b = M.pack(name, **{n: D.api_field_from_plain(t, fields[n], v4form=(k % 2 == 0)) for n, t in lay})
+            kwargs = {n: D.api_field_from_plain(t, fields[n], v4form=(k % 2 == 0)) for n, t in lay}
         except Exception as e:
-            ev["direct"] = ("pack|exc=" + type(e).__name__, repr(e)[:300])
+            ev["direct"] = ("construct|exc=" + type(e).__name__, repr(e)[:300])
             evs.append(ev)
             continue
+        r = D.guarded((name, "pack"), M.pack, name, **kwargs)
+        if r[0] == "skipped":
+            continue
+        if r[0] == "exc":
+            ev["direct"] = ("pack|" + D.exc_what(r), r[2])
+            evs.append(ev)
+            continue
+        b = r[1]
         ev["bytes"] = bytes(b)
-        try:
-            d = M.parse(name, b)
-        except Exception as e:
-            ev["direct"] = ("parse|exc=" + type(e).__name__, repr(e)[:300])
+        r = D.guarded((name, "parse"), M.parse, name, b)
+        if r[0] == "skipped":
+            continue
+        if r[0] == "exc":
+            ev["direct"] = ("parse|" + D.exc_what(r), r[2])
             evs.append(ev)
             continue
+        d = r[1]
         try:
             ev["parsed"] = {}
             for n, t in lay:
                 if n not in d:
                     raise D.Unprojectable("field=%s|missing" % n)
+                ce = D.class_errors(t, d[n], D.N())
+                if ce:
+                    raise D.Unprojectable("field=%s|class=%s|expected=%s" % (n, ce[0][0], ce[0][1]))
                 try:
                     ev["parsed"][n] = D.proj_field(t, d[n])
                     D.to_abs_field(t, ev["parsed"][n])
@@ -277,10 +302,11 @@ def record_traces(seed, count, big, layouts, real):
             if inner is not None:
                 ev["alert_info"] = {n: D.proj_field(t, d["alert_info"][n]) for n, t in ai_layout}
         except D.Unprojectable as e:
-            ev["direct"] = ("parse|" + str(e), "the parsed value is not of the field's type")
+            ev["direct"] = ("parse|" + str(e), "the parsed value is not of the field's type / the network's class")
         except KeyError as e:
             ev["direct"] = ("parse|alert_info|missing", repr(e))
         evs.append(ev)
+    D.use("BTC")
     return evs
 
 
@@ -314,10 +340,14 @@ def validate_traces(ctx, tjson, workers=4):
     return rej, why
 
 
+def _ttag(ev):
+    return "trace" if ev["sym"] == "BTC" else "trace@" + ev["sym"]
+
+
 def _trace_key(ev, why):
     """class-level key of a rejected trace: which conjunct failed, at which field, sent/parsed classes"""
     if why is None:
-        return "C16|trace|%s|rejected|parser-did-not-terminate" % ev["name"]
+        return "C16|%s|%s|rejected|parser-did-not-terminate" % (_ttag(ev), ev["name"])
     failed = ",".join(sorted(D.seq(why["failed"])))
     fld = why.get("field", "")
     extra = ""
@@ -325,7 +355,7 @@ def _trace_key(ev, why):
         t = dict(ev["layout"])[fld]
         if t[0] != "[":
             extra = "|sent=%s|parsed=%s" % (D.cls(ev["fields"][fld]), D.cls(ev["parsed"][fld]))
-    return "C16|trace|%s|rejected|failed=%s|field=%s%s" % (ev["name"], failed, fld, extra)
+    return "C16|%s|%s|rejected|failed=%s|field=%s%s" % (_ttag(ev), ev["name"], failed, fld, extra)
 
 
 def _traces(ctx, layouts, real):
@@ -337,8 +367,8 @@ def _traces(ctx, layouts, real):
     logged = []
     for e in evs:
         if "direct" in e:
-            ctx.fail("C16|trace|%s|%s" % (e["name"], e["direct"][0]),
-                     "recorded session: %s on %s" % (e["direct"][0], e["name"]),
+            ctx.fail("C16|%s|%s|%s" % (_ttag(e), e["name"], e["direct"][0]),
+                     "recorded session (%s): %s on %s" % (e["sym"], e["direct"][0], e["name"]),
                      {"fields": D._short(e["fields"], 2000), "error": e["direct"][1]})
         else:
             logged.append(e)
@@ -357,6 +387,7 @@ def _traces(ctx, layouts, real):
     for e in logged[:2]:
         ctx.sample({"trace": {"name": e["name"], "fields": D._short(e["fields"], 400), "bytes": e["bytes"][:80].hex()}})
     ctx.extra["trace_events"] = len(evs)
+    ctx.extra["trace_events_by_network"] = {sy: sum(1 for e in evs if e["sym"] == sy) for sy in TRACE_SYMS}
     ctx.extra["trace_messages_covered"] = len({e["name"] for e in logged})
     ctx.extra["trace_longest_array"] = max((len(v) for e in logged for v in e["fields"].values() if isinstance(v, tuple)), default=0)
     # binding self-test: take traces TLC accepted; corrupt one logged field, one byte, one parsed value
@@ -425,6 +456,54 @@ def _mutate_abs(t, v):
     raise ValueError(l)
 
 
+# ---------------------------------------------------------------- several networks in one process, both import orders
+
+ORDER = ["BTC", "XTN", "LTC", "XLT", "BTG", "XTG"]
+DRIVE = ["BTC", "XTN", "LTC", "XLT", "XTG"]     # Bitcoin header format: the spec's cases apply as they are
+NATIVE = ["BTG"]                                # a header format of its own: format-independent check only
+
+
+def _multi_network(ctx, carriers):
+    """BTC/XTN/XLT share one Tx class, BTG/XTG another, LTC has its own; each network has its own block class.
+    Fresh subprocess per import order; all networks imported first, then every header / block / tx carrying case
+    on each: the spec's bytes, and objects of THAT network's classes."""
+    import subprocess
+    import sys
+    jobs = []
+    for order in (ORDER, ORDER[::-1]):
+        fd, path = tempfile.mkstemp(prefix="vf-c16-multi-", suffix=".json")
+        with os.fdopen(fd, "w") as f:
+            json.dump({"order": order, "drive": DRIVE, "native": NATIVE, "cases": carriers, "tripped": sorted(D.TRIPPED)}, f)
+        p = subprocess.Popen([sys.executable, "-m", "vf.drv.p2p_multi", path], stdout=subprocess.PIPE, stderr=subprocess.PIPE, text=True)
+        jobs.append((order, path, p))
+    total = 0
+    for order, path, p in jobs:
+        try:
+            out, err = p.communicate(timeout=1500)
+        except subprocess.TimeoutExpired:
+            p.kill()
+            ctx.fail("C16|multi|import-order=%s|hang" % ",".join(order), "the multi-network worker did not finish", None)
+            continue
+        finally:
+            os.unlink(path)
+        if p.returncode in (-9, 137):
+            ctx.fail("C16|multi|import-order=%s|killed" % ",".join(order), "the multi-network worker was killed (memory)", err[-500:])
+            continue
+        if p.returncode != 0:
+            raise MachineryError("multi-network worker failed (order %s): %s" % (order, err[-1500:]))
+        res = json.loads(out)
+        total += res["executed"]
+        ctx.log("networks imported in the order %s: %d executions, %d disagreement classes%s" % (
+            ",".join(order), res["executed"], len(res["fails"]),
+            "" if not res["skipped"] else ", %d calls skipped after a hang / MemoryError" % res["skipped"]))
+        for key, what, detail in res["fails"]:
+            ctx.fail(key, what, detail)
+        ctx.action("replay.networks." + ",".join(order), res["executed"])
+    ctx.case(None, total)
+    ctx.replayed += total
+    ctx.extra["networks"] = ORDER
+
+
 # ---------------------------------------------------------------- single-case replay (./check C16 --replay FILE)
 
 def replay(ctx, obj):
@@ -433,7 +512,9 @@ def replay(ctx, obj):
     rec = d.get("case")
     print("replaying %s" % obj.get("key"))
     if isinstance(rec, dict) and rec.get("k") == "msg":
-        fails = D.check_msg_record(rec)
+        for sym in d.get("import_order") or []:
+            D.network(sym)
+        fails = D.check_msg_record(rec, d.get("network", "BTC"))
     elif isinstance(rec, dict) and rec.get("k") == "codec":
         fails = D.check_codec_record(rec)
     else:
@@ -470,7 +551,7 @@ def run(ctx):
                 "distinct_nontrivial = distinct (message, per field: type and size class 0/<253/<65536/>=65536 of its encoding) "
                 "and (letter, value) for codec cases")
     ctx.assumptions += ["field names are pycoin's (the keyword API); types, order and encodings are the standard's (protocol documentation, BIPs 31/35/37/61/130/133/144/152/155)",
-                        "BTC network object; embedded transactions have >= 1 input; blocks have >= 1 transaction and a correct merkle root (real block of tests/ and blocks assembled from real transactions, root by hashlib)",
+                        "the full grid and the codecs on the BTC network object; the header / block / tx carrying messages also on XTN, LTC, XLT, XTG (all six networks incl. BTG imported in one fresh process, both import orders; BTG, whose header format is its own, format-independent check only); traces on BTC, XTN, LTC; embedded transactions have >= 1 input; blocks have >= 1 transaction and a correct merkle root (real block of tests/ and blocks assembled from real transactions, root by hashlib)",
                         "merkleblock: only one-transaction partial merkle trees (the parser verifies the tree; C14 owns it); alert: only well-formed payloads",
                         "array counts up to 300 in the grid and about 2,200 in traces; strings up to 70,000 bytes; counts >= 2^31 out of reach of TLC integers",
                         "getblocktxn / prefilled indexes are the differentially encoded compact sizes as they are on the wire",
@@ -522,6 +603,7 @@ def run(ctx):
         if not only or "msg" in only:
             n_msg = [0, 0]
             keep = {}
+            carriers = []
 
             def on_msg(rec):
                 if rec.get("k") == "ncases":
@@ -540,6 +622,8 @@ def run(ctx):
                     ctx.sample({"case": rec if len(json.dumps(rec)) < 1500 else {"name": rec["name"], "truncated": json.dumps(rec)[:1200]}})
                 f = D.check_msg_record(rec)
                 fails.extend(f)
+                if rec["name"] in D.CARRIERS:
+                    carriers.append(rec)
                 fl = D.seq(rec["fields"])
                 if not f and "num" not in keep and fl and fl[0]["t"] in ("L", "Q") and rec["parsed"]["same"]:
                     keep["num"] = rec
@@ -571,10 +655,14 @@ def run(ctx):
                 ctx.selftest("replay_rejects_corrupted_expected_field", any("|parse|field=" + pf[0]["n"] in k for k, _, _ in f))
         for key, what, detail in fails:
             ctx.fail(key, what, detail)
+        if not only or "msg" in only:
+            _multi_network(ctx, carriers)
 
         # ---- 3. code -> spec
         if not only or "traces" in only:
             _traces(ctx, layouts, real_abs)
     finally:
         os.unlink(pool)
+    if D.TRIPPED:
+        ctx.extra["calls_not_repeated_after_hang_or_memoryerror"] = {"pairs": sorted("%s.%s" % p for p in D.TRIPPED), "skipped": D.SKIPPED[0]}
     ctx.exhaustive = True
